@@ -1167,6 +1167,16 @@ class CompositeSubsetState(SubsetState):
         # mask computed before the move
         _clear_mask_caches()
 
+    def __setgluestate_callback__(self, context):
+        # The states held here are copies taken when this state was created,
+        # which when restoring a session can be before references to other
+        # objects were resolved in the restored originals, so these need to be
+        # resolved in the copies too
+        for state in (self.state1, self.state2):
+            callback = getattr(state, '__setgluestate_callback__', None)
+            if callback is not None:
+                callback(context)
+
     @property
     def attributes(self):
         att = self.state1.attributes
@@ -1482,7 +1492,8 @@ class SliceSubsetState(SubsetState):
         return cls(rec['reference_data'], context.object(rec['slices']))
 
     def __setgluestate_callback__(self, context):
-        self.reference_data = context.object(self.reference_data)
+        if isinstance(self.reference_data, str):
+            self.reference_data = context.object(self.reference_data)
         self._pad_slices()
 
 
